@@ -170,7 +170,35 @@ DIRECTED = [
 ]
 
 
+def targeted_called(rnd):
+    """Nested explicitly called lambdas whose parameters re-use names that are free in an enclosing call's argument,
+    with a fusable pair in the innermost body (what a fusion rule builds is re-visited while the bindings are live)."""
+    pool = ["e", "j", "x", "p"]
+    E, X, P, J, Q = (rnd.choice(pool) for _ in range(5))
+    if X == E:
+        X = "x_"
+    arg_outer = rnd.choice([f"{E}.met", f"{E}.met + {E}.x", f"({E}.met, {E}.y)[0]", f"{E}"])
+    use_outer = f"{X}" if arg_outer != f"{E}" else f"{X}.met"
+    seq = rnd.choice([f"First(EventDataset()).jets", f"First(Where(EventDataset(), lambda w: Count(w.jets) > 0)).jets"])
+    pair = rnd.choice([
+        f"Select(Select({P}, lambda {J}: {J}.pt + {use_outer}), lambda {Q}: {Q} * 2)",
+        f"Where(Where({P}, lambda {J}: {J}.pt > {use_outer}), lambda {Q}: {Q}.eta < 100)",
+        f"Select(Where({P}, lambda {J}: {J}.pt > {use_outer}), lambda {Q}: {Q}.pt)",
+        f"Count(Where(Select({P}, lambda {J}: {J}.pt - {use_outer}), lambda {Q}: {Q} > 0))",
+    ])
+    inner = f"(lambda {P}: {pair})({seq})"
+    if rnd.random() < 0.5:
+        inner = f"(lambda {P}, k_: {pair})({seq}, k_={E}.x)"
+    return f"Select(EventDataset(), lambda {E}: (lambda {X}: {inner})({arg_outer}))"
+
+
 def targeted_capture(rnd):
+    if rnd.random() < 0.4:
+        return targeted_called(rnd)
+    return targeted_reuse(rnd)
+
+
+def targeted_reuse(rnd):
     """The re-use-live family of the design: an inner fusion inside an outer lambda substitutes an argument that mentions
     outer names (E, J) for T, below which 1-3 further lambdas re-bind names drawn from the same small pool."""
     pool = ["e", "j", "t", "k"]
